@@ -4,6 +4,7 @@ import (
 	"context"
 	"fmt"
 	"hash/fnv"
+	"net"
 	"encoding/json"
 	"os"
 	"path/filepath"
@@ -219,6 +220,7 @@ type Sim struct {
 	h    uint64
 
 	mu          sync.Mutex // protects what SUT goroutines touch through the hooks
+	gatesOpen   bool       // finale / teardown: handlers are no longer parked at the proposed hook
 	nodes       []*nodeState
 	incs        []*incarnation
 	byTransport map[*rafthttp.Transport]*incarnation
@@ -498,6 +500,10 @@ func (s *Sim) startNode(ns *nodeState, dir string, join bool) {
 	}
 	config.Configures = cfg
 	inc.vn = server.VerifStartCluster(inc.ctx, cfg)
+	server.VerifProposedHook = nil
+	if s.k.HandlerGate {
+		server.VerifProposedHook = s.proposedHook
+	}
 	// the WAL has been replayed (a node that cannot read its own files has
 	// died by now); what follows is the node applying what it found
 	if inc.fromImage {
@@ -851,6 +857,12 @@ func (s *Sim) checkAgreement() {
 		if !ns.view.ok {
 			continue
 		}
+		if s.hasGatedHandler(ns) {
+			// the apply loop of this node may be in the middle of a batch, waiting to hand
+			// a result to a handler that is parked at the proposed hook: its keyspace is
+			// not the one of any applied index right now
+			continue
+		}
 		idx := ns.view.applied
 		if ns.lastAppliedInit && idx == ns.lastApplied {
 			continue
@@ -962,6 +974,9 @@ func (s *Sim) events() []event {
 		}
 		evs = append(evs, event{kind: "send", a: i, w: k.WClient})
 	}
+	for _, i := range s.gated() {
+		evs = append(evs, event{kind: "release-handler", a: i, w: 2 * k.WDeliver})
+	}
 	// repairs are ordinary events once their hold time is over
 	if s.partitioned && s.step >= s.partHoldTill {
 		evs = append(evs, event{kind: "heal", w: k.WDeliver})
@@ -983,6 +998,61 @@ func (s *Sim) events() []event {
 		evs = append(evs, event{kind: "idle", w: 1})
 	}
 	return evs
+}
+
+// proposedHook parks the calling connection handler (see Knobs.HandlerGate).
+func (s *Sim) proposedHook(nc net.Conn) {
+	c, ok := nc.(*Conn)
+	if !ok {
+		return
+	}
+	s.mu.Lock()
+	if c.inc == nil || c.inc.dead || c.inc.stopped || s.gatesOpen {
+		s.mu.Unlock()
+		return
+	}
+	g := make(chan struct{})
+	c.gate = g
+	s.mu.Unlock()
+	<-g
+}
+
+// gated lists the connections whose handler waits at the proposed hook, in
+// client order.
+func (s *Sim) gated() []int {
+	var out []int
+	s.mu.Lock()
+	for i, c := range s.cs {
+		if c.conn != nil && c.conn.gate != nil {
+			out = append(out, i)
+		}
+	}
+	s.mu.Unlock()
+	return out
+}
+
+func (s *Sim) hasGatedHandler(ns *nodeState) bool {
+	if ns.inc == nil {
+		return false
+	}
+	s.mu.Lock()
+	defer s.mu.Unlock()
+	for _, c := range ns.inc.conns {
+		if c.gate != nil {
+			return true
+		}
+	}
+	return false
+}
+
+func (s *Sim) openGate(c *Conn) {
+	s.mu.Lock()
+	g := c.gate
+	c.gate = nil
+	s.mu.Unlock()
+	if g != nil {
+		close(g)
+	}
 }
 
 func (s *Sim) anyLiveTicker() bool {
@@ -1161,6 +1231,13 @@ func (s *Sim) apply(e event) {
 		time.Sleep(tickEvery)
 	case "send":
 		s.applySend(e.a)
+	case "release-handler":
+		c := s.cs[e.a]
+		s.trace("release-handler c%d", e.a)
+		s.fault("handler-parked-between-propose-and-wait")
+		if c.conn != nil {
+			s.openGate(c.conn)
+		}
 	case "heal":
 		s.heal()
 	case "restart":
@@ -1422,6 +1499,7 @@ func (s *Sim) stopIncarnation(inc *incarnation) {
 	inc.stopped = true
 	for _, c := range inc.conns {
 		c.clientClose()
+		s.openGate(c)
 	}
 	synctest.Wait()
 	// handlers whose proposal will never commit wait forever (HandleCluster
